@@ -189,7 +189,12 @@ func (proc *Processor) ExecuteStatement(ctx context.Context, stmt parser.Stateme
 		if e != nil {
 			err = e
 		} else {
-			flow, err = proc.execute(ContextForPreparedStatement(ctx, NewReplaceValues(execStmt.Values)), prepared.Statements)
+			values, e := EvaluateReplaceValues(ctx, proc.ReferenceScope, execStmt.Values)
+			if e != nil {
+				err = e
+			} else {
+				flow, err = proc.execute(ContextForPreparedStatement(ctx, values), prepared.Statements)
+			}
 		}
 	case parser.DisposeStatement:
 		err = proc.Tx.PreparedStatements.Dispose(stmt.(parser.DisposeStatement))
